@@ -341,6 +341,14 @@ Lemma seal_covers_rhs :
   seal_covers_params traits "tensors::operations" "Similar" "private" "Sealed" = true.
 Proof. vm_compute; reflexivity. Qed.
 
+(* ... and the sealing trait itself is implemented for a closed set of crate types only: no impl of
+   private::Sealed has a bare type parameter as Self or as Rhs (seeded change C20-t1: one impl
+   generic over Rhs bounded by `TensorView<..>: PartialEq<Rhs>`, which a downstream
+   `impl PartialEq<Local> for TensorView<..>` opens) *)
+Lemma seal_impls_closed_ok :
+  seal_impls_closed sealed_impls "tensors::operations" "private" "Sealed" = true.
+Proof. vm_compute; reflexivity. Qed.
+
 Lemma markers_unsafe : forallb (is_unsafe_trait traits) unsafe_markers = true.
 Proof. vm_compute; reflexivity. Qed.
 
